@@ -98,6 +98,8 @@ KNOWN_RULES = [
     # (signature, property set, predicate on a finding)
     ("echo-trailing-param-matches-slashes", {"C02", "C12"}, lambda f: f.get("engine") == "echo" and f.get("kind") == "probe" and "/zz/extra" in f.get("url", "")),
     ("fiber-empty-header-is-absent", {"C12"}, lambda f: f.get("kind") == "token" and "empty" in f.get("toks", [])),
+    # the same engine behaviour seen from C05: an OPTIONAL (pointer) non-string header sent with an empty value is not answered 422 on fiber
+    ("fiber-empty-header-is-absent", {"C05"}, lambda f: f.get("engine") == "fiber" and f.get("kind") == "token" and "empty" in f.get("toks", []) and "not answered 422" in f.get("what", "")),
     ("same-name-controllers-alias-collision", {"C09"}, lambda f: "redeclared in this block" in f.get("what", "")),
 ]
 
